@@ -413,7 +413,7 @@ MUTANTS = [("miskey", 5, "Property"), ("count_skip", 7, "Property"), ("leak_clea
 
 def model_check(run, thorough):
     """M: the design level has the property (all kind groups), and the spec mutants are refuted."""
-    plans = [dict(MC_NA=2, MC_LEN=3, MC_DT=1)] if not thorough else \
+    plans = [dict(MC_NA=2, MC_LEN=3, MC_DT=1), dict(MC_NA=3, MC_LEN=3, MC_DT=0)] if not thorough else \
             [dict(MC_NA=3, MC_LEN=3, MC_DT=1), dict(MC_NA=3, MC_LEN=4, MC_DT=0), dict(MC_NA=2, MC_LEN=5, MC_DT=0)]
     jobs = [dict(p, MC_GROUP=g) for p in plans for g in range(1, MC_GROUPS + 1)]
     par = 8 if thorough else 4
@@ -424,9 +424,11 @@ def model_check(run, thorough):
         run.add_tlc(r)
     mc = {"runs": len(res), "states": sum(r.distinct for r in res), "plans": plans}
     refuted = {}
-    for name, group, inv in MUTANTS:
-        r = core.tlc("mc/MC_Snapshot", cfg=f"mc/MC_Snapshot_{name}.cfg", workers=1, xmx="3g", timeout=900,
-                     env=dict(MC_NA=2, MC_LEN=3, MC_DT=1, MC_GROUP=group))
+    with cf.ThreadPoolExecutor(max_workers=3) as ex:
+        mres = list(ex.map(lambda m: core.tlc("mc/MC_Snapshot", cfg=f"mc/MC_Snapshot_{m[0]}.cfg", workers=1,
+                                              xmx="3g", timeout=900,
+                                              env=dict(MC_NA=2, MC_LEN=3, MC_DT=1, MC_GROUP=m[1])), MUTANTS))
+    for (name, group, inv), r in zip(MUTANTS, mres):
         if r.ok or f"Invariant {inv} is violated" not in r.out:
             raise core.ToolError(f"spec mutant {name} was not refuted by invariant {inv}: M lost its teeth")
         refuted[name] = {"invariant": inv, "after_states": r.distinct}
@@ -440,7 +442,7 @@ def generate(run, thorough):
                      env=dict(GEN_MODE="short", GEN_DTS=1 if thorough else 0))
     short = g1.printed_json()
     g2 = core.tlc_ok("gen/Gen_Snapshot", cfg="gen/Gen_Snapshot.cfg", workers=1, xmx="3g", timeout=1800,
-                     env=dict(GEN_MODE="random"), simulate=3000 if thorough else 300, depth=130,
+                     env=dict(GEN_MODE="random"), simulate=3000 if thorough else 600, depth=130,
                      seed=run.seed)
     rnd = g2.printed_json()
     if not short or not rnd:
@@ -471,8 +473,8 @@ def describe(case, raw, step=None):
     return out
 
 
-def judge(run, cases, workdir, shards, name="trace"):
-    events, index, raw = replay_histories(cases)
+def judge(run, cases, workdir, shards, name="trace", replayed=None):
+    events, index, raw = replayed or replay_histories(cases)
     rejected, mismatch, selfcheck, results = validate_by_history(events, index, workdir, shards, name)
     for r in results:
         run.add_tlc(r)
@@ -521,10 +523,14 @@ def coverage(events, cases):
 
 def check(run):
     thorough = run.tier == "thorough"
-    mc = model_check(run, thorough)
     short, rnd = generate(run, thorough)
     cases = short + rnd
-    events, index, raw, by_hist, mm_hist = judge(run, cases, run.work, 8 if thorough else 4)
+    # M (TLC processes) runs while the driver replays the histories; V follows
+    with cf.ThreadPoolExecutor(max_workers=1) as ex:
+        fut = ex.submit(model_check, run, thorough)
+        replayed = replay_histories(cases, procs=6 if thorough else 4)
+        mc = fut.result()
+    events, index, raw, by_hist, mm_hist = judge(run, cases, run.work, 8 if thorough else 4, replayed=replayed)
     kinds, fields, inter, pos = coverage(events, cases)
     distinct = len({json.dumps(c, sort_keys=True) for c in cases if len({r["a"] for r in c["h"]}) > 1})
     n_rec = sum(1 for e in events if e["e"] == "rec")
